@@ -38,7 +38,8 @@ IOClauses(c, r) ==
   \cup (IF OutputNames(c) = OutputNames(r) THEN {} ELSE {"outputs_changed"})
 
 PreservesAll(c, r) ==
-  IF ~(c.acyc /\ r.acyc) THEN {"result_cyclic"}
+  IF ~c.acyc THEN {}                  \* a cyclic argument has no function of the inputs to preserve: structural clauses only
+  ELSE IF ~r.acyc THEN {"result_cyclic"}
   ELSE LET ev == SameFreeEval(c, r) IN
        IF ~ev.ok THEN {"free_signals_changed"}
        ELSE FnDiff(c, r, ev.vc, ev.vr, 1..c.n) \cup Missing(c, r, 1..c.n)
@@ -248,6 +249,10 @@ Judge_sequential_unroll(e) ==
                                                [b \in insts |-> InitOf(e, b)], e.remove_unloaded)
            THEN {"DRIFT:sequential_unroll_differs_from_as_built_model"} ELSE {})
      \cup {"primary_output_dropped:" \o c.names[i] : i \in {j \in primOut : ~HasMap(e, c.names[j])}}
+     \* remove_unloaded (documented: "unloaded inputs will be removed after unrolling"): no free input that nothing reads
+     \cup (IF e.remove_unloaded /\ WellFormedRec(uc)
+           THEN {"unloaded_input_kept_although_remove_unloaded:" \o uc.names[i] : i \in {j \in Inputs(uc) : FoSet(uc, j) = {} /\ ~uc.out[j]}}
+           ELSE {})
      \cup (IF ~mapOK THEN {"io_map_incomplete"} ELSE
            (IF OutputNames(uc) = wantOut THEN {} ELSE {"outputs_of_unrolled_circuit"})
            \cup (IF InputNames(uc) = wantIn THEN {} ELSE {"inputs_of_unrolled_circuit"})
